@@ -99,6 +99,7 @@ static void op_pc_param(int argc, char **argv) {
 	 * the curve parameter the final exponentiation and the Miller loop iterate over */
 	fprintf(OUT, " famname=%s parname=%s", ep_curve_is_pairf() == EP_BN ? "EP_BN" : ep_curve_is_pairf() == EP_B12 ? "EP_B12" : "other",
 		ep_param_get() == SM9_P256 ? "SM9_P256" : "other");
+	fprintf(OUT, " optbtwo=%d", ep_curve_opt_b() == RLC_TWO);
 #if PP_MAP == OATEP
 	fprintf(OUT, " ppmap=OATEP");
 #elif PP_MAP == TATEP
